@@ -1580,4 +1580,38 @@ example : WellFormed { policy := 0, path := "//evil.com/".toList, pre := [], hos
 
 end slash
 
+/-! ### the default rejections on the wire (`defaultErrorHandler` / `formatSize`, `defaultUnauthorizedHandler`) -/
+
+/-- `formatSize` rounds correctly: the advertised size, in tenths of the unit, is within half a tenth of the limit
+    (`%.1f` of an exact quotient), for every byte count and every unit -/
+theorem formatSize_rounds_to_nearest_tenth (bytes unit : Nat) (hu : 0 < unit) :
+    2 * (bytes * 10) ≤ 2 * (Body.roundTenths bytes unit * unit) + unit ∧
+    2 * (Body.roundTenths bytes unit * unit) ≤ 2 * (bytes * 10) + unit := by
+  have hd := Nat.div_add_mod (bytes * 10) unit
+  have hm := Nat.mod_lt (bytes * 10) hu
+  have hmul : (bytes * 10 / unit) * unit = unit * (bytes * 10 / unit) := Nat.mul_comm _ _
+  have hsucc : (bytes * 10 / unit + 1) * unit = unit * (bytes * 10 / unit) + unit := by
+    rw [Nat.add_mul, Nat.one_mul, Nat.mul_comm]
+  unfold Body.roundTenths
+  simp only
+  split
+  · rw [hmul]; omega
+  · split
+    · rw [hsucc]; omega
+    · split
+      · rw [hmul]; omega
+      · rw [hsucc]; omega
+
+/-- ties go to the even tenth (1280 bytes = 1.25 KB is shown as 1.2KB, 1792 bytes = 1.75 KB as 1.8KB); sizes below 1 KB are
+    shown in bytes, the default limit as 2.0MB -/
+theorem formatSize_witnesses :
+    Body.formatSize 1280 = "1.2KB".toList ∧ Body.formatSize 1792 = "1.8KB".toList ∧ Body.formatSize 1023 = "1023B".toList ∧
+    Body.formatSize (2 * 1024 * 1024) = "2.0MB".toList ∧ Body.formatSize 1048575 = "1024.0KB".toList := by decide
+
+/-- both default rejections say what the statement asks of them: 413, resp. 401 with `WWW-Authenticate` -/
+theorem rejections_meet_spec (limit : Nat) (realm : Bytes) :
+    Body.errSpecOK (Body.errorResponse limit) = true ∧ Auth.errSpecOK (Auth.errorResponse realm) = true := by
+  constructor <;> rfl
+
+
 end Rivaas.C17
